@@ -281,6 +281,15 @@ func (env *Env) modifiesComps(ct *Contract, sf *SpecFile, callee *ssa.Function) 
 		cx.vars[n] = sval{t: fmt.Sprintf("|dummy:%s|", n), typ: ptypes[i], kind: "val"}
 	}
 	if callee != nil {
+		// parameters renamed since the contract was written: bind the recorded names too
+		if rec := env.Bindings[fnPkgPath(callee)+"|"+calleeKey(callee)]; rec != nil && len(rec.Params) == len(names) {
+			for i, rp := range rec.Params {
+				on := rp[:strings.Index(rp, "|")]
+				if _, have := cx.vars[on]; !have && on != names[i] {
+					cx.vars[on] = sval{t: fmt.Sprintf("|dummy:%s|", names[i]), typ: ptypes[i], kind: "val"}
+				}
+			}
+		}
 		for _, fv := range callee.FreeVars {
 			cx.vars["&"+fv.Name()] = sval{t: fmt.Sprintf("|dummyfv:%s|", fv.Name()), typ: fv.Type(), kind: "val"}
 		}
@@ -298,8 +307,14 @@ func (env *Env) modifiesComps(ct *Contract, sf *SpecFile, callee *ssa.Function) 
 }
 
 // GenByKey generates the verification conditions of one function.
+// A key may carry an aspect suffix ("F #name"): a second, independent contract for the same function F that verifies
+// another aspect of it with its own loop invariants (smaller queries); callers always use F's main contract.
 func (env *Env) GenByKey(pkgPath, key string) (*FuncResult, error) {
-	fn := env.FindFunc(pkgPath, key)
+	base := key
+	if i := strings.Index(key, " #"); i >= 0 {
+		base = key[:i]
+	}
+	fn := env.FindFunc(pkgPath, base)
 	if fn == nil {
 		return nil, fmt.Errorf("function %s not found in %s", key, pkgPath)
 	}
